@@ -1,6 +1,6 @@
 //! C09: desync detection raises no false alarm and catches real divergence.
 use crate::explore::{explore, ExploreCfg};
-use crate::net::{Fate, Outage};
+use crate::net::{Fate, Outage, ScriptedFate};
 use crate::props::core::{base_scn, packet_faults};
 use crate::report::Report;
 use crate::scenario::*;
@@ -389,6 +389,41 @@ pub fn c09() -> i32 {
         let cfg = ExploreCfg { k: Some(0), wall: Duration::from_secs(60), ..Default::default() };
         let out = explore(&scns, &cfg, &judge);
         rep.absorb("detection half with applications that never drain events during the run and a queue already full of NetworkInterrupted/NetworkResumed", out, &props, json!({"k": 0, "scenarios": n}));
+    }
+    // ---- detection after the network has re-delivered a long series of very old checksum
+    // reports (frames that left the 32-entry history long ago)
+    {
+        let mut scns = Vec::new();
+        for (iv, w) in [(1u32, 8usize), (2, 3)] {
+            for both in [false, true] {
+                let mut s = base_scn("c09-detect-after-old-reports", "1+1", w, 0, false, Pred::RepeatLast, Program::Changing, 1);
+                for p in s.peers.iter_mut() {
+                    p.desync = iv;
+                }
+                let (a, b) = (s.peers[0].addr, s.peers[1].addr);
+                let n_old = 90;
+                let arrive = 10 + n_old + 34 * iv as i32 + 10;
+                for r in 10..10 + n_old {
+                    // eight old reports per round, from `arrive` on
+                    let at = arrive + (r - 10) / 8;
+                    s.scripted.push(ScriptedFate { from: b, to: a, round: r, classes: 1 << K_CHECKSUM, fate: Fate::DupLate(at - r) });
+                    if both {
+                        s.scripted.push(ScriptedFate { from: a, to: b, round: r, classes: 1 << K_CHECKSUM, fate: Fate::DupLate(at - r) });
+                    }
+                }
+                let g = arrive + n_old / 8 + 12;
+                s.diverge = Some((1, g));
+                s.name = format!("{} interval={iv} both-directions={both} {n_old} old reports re-delivered from round {arrive}, node 1 diverges from frame {g}", s.name);
+                s.horizon = g + 2;
+                s.probe = 4 * iv as i32 + 2 * w as i32 + 60;
+                s.checks = CK_C02;
+                scns.push(s);
+            }
+        }
+        let n = scns.len();
+        let cfg = ExploreCfg { k: Some(0), wall: Duration::from_secs(60), ..Default::default() };
+        let out = explore(&scns, &cfg, &judge);
+        rep.absorb("detection half after 90 checksum reports that are more than 32 intervals old have been delivered a second time", out, &props, json!({"k": 0, "scenarios": n}));
     }
     let det = DETECTED.load(std::sync::atomic::Ordering::Relaxed);
     let nr = NOT_REACHED.load(std::sync::atomic::Ordering::Relaxed);
